@@ -53,7 +53,7 @@ REQUIRED_PROBES = {"quick": ["lookup_served_from_cache", "definition_after_first
                              "value_matches_own_definition", "convert_zoneinfo", "convert_pytz",
                              "reparse_of_serialisation", "interleaved_clients", "until_rule", "count_rule",
                              "rdate_observance", "two_eras", "no_tzname", "slash_prefixed_id", "parsed_with_multiple",
-                             "utc_instant_family", "convert_with_process_wide_provider"]}
+                             "utc_instant_family", "convert_with_process_wide_provider", "tzname_with_language"]}
 REQUIRED_PROBES["thorough"] = REQUIRED_PROBES["quick"]
 
 # "sim/a" / "SIM/B" / "SÏM/Ü": other ids than "Sim/A" / "Sim/B" / "Sïm/Ü" (ids are compared as they are written)
@@ -300,7 +300,7 @@ def dateutil_direct(d):
         import dateutil.tz
         # the definition proper: extra properties (X-..., TZURL, COMMENT) say nothing about offsets, and
         # dateutil rejects unknown ones outright
-        core = dict(d, obs=[{k2: v for k2, v in ob.items() if k2 != "extras"} for ob in d["obs"]])
+        core = dict(d, obs=[{k2: v for k2, v in ob.items() if k2 not in ("extras", "lang")} for ob in d["obs"]])
         core.pop("extras", None)
         try:
             _DU_CACHE[k] = dateutil.tz.tzical(StringIO(zonegen.vtimezone_text(core))).get()
@@ -486,6 +486,8 @@ def _probe_shape(res, entry):
         res.probe("two_eras")
     if meta.get("family"):
         res.probe("utc_instant_family")
+    if meta.get("tzname_language"):
+        res.probe("tzname_with_language")
     if any(ob.get("name") is None for ob in d["obs"]):
         res.probe("no_tzname")
     if d["tzid"].startswith("/"):
